@@ -133,6 +133,10 @@ def check(cfg, lines):
             if what in ("cputg", "cgetg"):
                 # a granted request withdrawn in this instant: remembered until the node's next movement
                 withdrawn.append((t, ed, what))
+            elif what == "stale":
+                for pp in ("C10", "C15"):
+                    v(pp, "node %d requested %s edge %d at %s, but its state-dependent policy names another edge at that instant: the "
+                          "policy was consulted earlier than it was acted upon" % (nq, "in-" if nfree == 1 else "out-", ed, t))
             elif what == "stamp":
                 v("C18", "item %d moving over edge %d at %s: %s" % (nq, ed, t, {1: "one of its time stamps lies in the future",
                   2: "its node entry / exit stamp precedes its creation stamp", 3: "it leaves a node with an exit stamp earlier than its entry stamp",
@@ -624,6 +628,14 @@ def check(cfg, lines):
                 outs = [tp for (tp, i2, e2) in push_log[n] if i2 == pal]
                 if outs and outs[0] < ready:
                     v("C08", "combiner %d pushed pallet %d at %s, before last ingredient time + delay = %s" % (n, pal, outs[0], ready))
+                need = sum(q for k2, q in enumerate(nc["recipe"]) if 1 <= k2 < len(nc["ins"]))
+                if not nc["blocking"] and len(ing) >= need and not crash:
+                    # a non-blocking combiner hands the packed pallet over, or drops it, in the instant it is finished
+                    ends = outs[:1] + ([t_disc[(n, pal)]] if (n, pal) in t_disc else [])
+                    if ends and ends[0] != ready:
+                        v("C09", "non-blocking combiner %d pushed / dropped pallet %d at %s, the pallet was finished at %s" % (n, pal, ends[0], ready))
+                    if not ends and ready < last_t:
+                        v("C09", "non-blocking combiner %d still holds pallet %d that was finished at %s" % (n, pal, ready))
         if kind == "source":
             gens = sorted((t_gen[i], i) for i in t_gen if place_src(i, ev) == n)
             pol = nc["outsel"]
